@@ -127,6 +127,7 @@ var gshort = map[string]string{
 	"custom":       "/fx.gov.v1.MsgUpdateCustomParams",
 	"spend":        "/cosmos.distribution.v1beta1.MsgCommunityPoolSpend",
 	"send":         "/cosmos.bank.v1beta1.MsgSend", // a non-privileged type for mixed-type attempts
+	"verifyinv":    "/cosmos.crisis.v1beta1.MsgVerifyInvariant",
 }
 
 // gmsg builds one message. handwritten reports whether the payload is a hand-written valid
@@ -155,7 +156,14 @@ func gmsg(w *World, kind string, a Args, auth string) (m sdk.Msg, handwritten bo
 	}
 	switch url {
 	case "/cosmos.bank.v1beta1.MsgSend":
-		return banktypes.NewMsgSend(gmustAddr(w, auth), gmustAddr(w, def("to", "user/0")), sdk.NewCoins(sdk.NewCoin(fxtypes.DefaultDenom, sdkmath.NewInt(1)))), true, nil
+		amt := sdkmath.NewInt(1)
+		if a.Has("amount") {
+			amt = a.SdkInt("amount")
+		}
+		return banktypes.NewMsgSend(gmustAddr(w, auth), gmustAddr(w, def("to", "user/0")), sdk.NewCoins(sdk.NewCoin(fxtypes.DefaultDenom, amt))), true, nil
+	case "/cosmos.crisis.v1beta1.MsgVerifyInvariant":
+		// the handler panics by design when the named invariant is broken
+		return &crisistypes.MsgVerifyInvariant{Sender: auth, InvariantModuleName: def("module", "gov"), InvariantRoute: def("route", "module-account")}, true, nil
 	case "/fx.gravity.crosschain.v1.MsgUpdateParams":
 		chain := def("chain", "eth")
 		k, ok := gccKeeper(w, chain)
